@@ -516,6 +516,17 @@ pub fn suite_clicorrupt(dir: &str, seed: u64, thorough: bool, st: &mut Stats) {
             st.violation("C15", &format!("{}: bita clone ended with status {} ({})", what, code, log.lines().last().unwrap_or("")), &replay);
         }
         if mi == 0 { st.sample(format!("clicorrupt {} archive={}B header={}B", c.cfg.line(), good.len(), hlen)); }
+        // inspecting the same bytes: `bita info` ends with status 0 exactly when the reader model opens them
+        let (icode, ilog) = s.bita(&["info", "bad.cba"], None, &[]);
+        st.oracle_checks += 1;
+        if icode != 0 && icode != 1 {
+            st.violation("C15", &format!("{}: bita info ended with status {} ({})", what, icode, ilog.lines().last().unwrap_or("")), &replay);
+        }
+        if m.len() < 40_000 {
+            let ds = if m.len() >= 14 { u64::from_le_bytes(m[6..14].try_into().unwrap()) } else { 0 };
+            let hh = if m.len() >= 14 && (14u128 + ds as u128 + 72) <= m.len() as u128 { hex(&b2(&m[..14 + ds as usize + 8])) } else { "-".to_string() };
+            lines.push((format!("tryinitok {} {}", hex(&m), hh), if icode == 0 { "OK".into() } else { "INVALID".into() }));
+        }
         // the model on the same bytes (cases without a seed: a seed may supply the damaged chunk)
         if !via_http && !with_seed && m.len() < 40_000 {
             if let Some(al) = crate::tamper::aclone_line(&m) {
